@@ -70,8 +70,12 @@ OutFiles(cb) == CASE cb = "csvdump" -> {"blocks", "transactions", "tx_in", "tx_o
 TmpName(f) == f \o ".csv.tmp"
 
 RangeOf(s) == {s[i] : i \in DOMAIN s}
-MaxOf(S) == CHOOSE x \in S : \A y \in S : y <= x
-MinOf(S) == CHOOSE x \in S : \A y \in S : x <= y
+
+\* TLC passes operator arguments and LET definitions by name and re-evaluates them at every use.
+\* Force(v, F) evaluates v once (as the single element of an enumerated set) and applies F to the value.
+Force(v, F(_)) == CHOOSE r \in {F(x) : x \in {v}} : TRUE
+MaxOf(S0) == LET pick(S) == CHOOSE x \in S : \A y \in S : y <= x IN Force(S0, pick)
+MinOf(S0) == LET pick(S) == CHOOSE x \in S : \A y \in S : x <= y IN Force(S0, pick)
 
 -----------------------------------------------------------------------------
 (* Chain selection (parser/index.rs).                                      *)
@@ -82,26 +86,34 @@ MinOf(S) == CHOOSE x \in S : \A y \in S : x <= y
 
 Usable(r) == r.data /\ ~r.failed
 
-RECURSIVE Connected(_, _)
-Connected(S, id) == /\ Usable(S[id])
-                    /\ (S[id].prev \in DOMAIN S /\ S[id].h > 0) => Connected(S, S[id].prev)
+\* Connected ids, computed in one pass over the heights in ascending order: an id is connected when it is
+\* usable and its parent, if indexed, is connected (parents sit one height below)
+RECURSIVE GoodFrom(_, _, _, _)
+GoodFrom(S, h, hmax, G) ==
+  IF h > hmax THEN G
+  ELSE GoodFrom(S, h + 1, hmax,
+                G \cup {id \in DOMAIN S : /\ S[id].h = h /\ Usable(S[id])
+                                          /\ (S[id].prev \in DOMAIN S /\ h > 0) => S[id].prev \in G})
 
-Candidates(S) == {id \in DOMAIN S : Connected(S, id)}
+Candidates(S) == IF DOMAIN S = {} THEN {}
+                 ELSE LET go(hs) == GoodFrom(S, MinOf(hs), MaxOf(hs), {}) IN Force({S[id].h : id \in DOMAIN S}, go)
 
-BestTips(S) == LET C == Candidates(S)
-                   top == {id \in C : \A o \in C : S[o].h <= S[id].h}
-               IN {id \in top : \A o \in top : S[o].valid <= S[id].valid}
+BestOf(S, C) == IF C = {} THEN {}
+                ELSE LET mh == MaxOf({S[id].h : id \in C})
+                         pickTop(top) == LET mv == MaxOf({S[id].valid : id \in top}) IN {id \in top : S[id].valid = mv}
+                     IN Force({id \in C : S[id].h = mh}, pickTop)
+BestTips(S) == LET best(C) == BestOf(S, C) IN Force(Candidates(S), best)
 
 RECURSIVE Ancestry(_, _)
 Ancestry(S, id) == IF S[id].prev \in DOMAIN S /\ S[id].h > 0
                    THEN Ancestry(S, S[id].prev) \cup {id} ELSE {id}
 
 \* height -> record of the chain ending in tip
-ChainOf(S, tip) == LET A == Ancestry(S, tip)
-                   IN [h \in {S[id].h : id \in A} |-> S[CHOOSE id \in A : S[id].h = h]]
+ChainOf(S, tip) == LET mk(A) == [h \in {S[id].h : id \in A} |-> S[CHOOSE id \in A : S[id].h = h]]
+                   IN Force(Ancestry(S, tip), mk)
 
-FileMax(chain) == LET F == {chain[h].file : h \in DOMAIN chain}
-                  IN [f \in F |-> MaxOf({h \in DOMAIN chain : chain[h].file = f})]
+FileMax(chain) == LET mk(F) == [f \in F |-> MaxOf({h \in DOMAIN chain : chain[h].file = f})]
+                  IN Force({chain[h].file : h \in DOMAIN chain}, mk)
 
 \* as-is: one record per height, later key wins, filter "any of VALID_CHAIN|HAVE_DATA bits"
 AsIsKeeps(r) == r.data \/ r.valid >= 4
@@ -129,6 +141,11 @@ Begin(s) == /\ pc = "idle"
             /\ rows' = [f \in OutFiles(s.cb) |-> 0]
             /\ UNCHANGED <<scan, seen, lastAt, idx, fileMaxH, maxH, open, blk, delivered, tmp, fin, exit, errH>>
 
+\* the same, from any state (a batch of recorded runs is validated back to back)
+BeginFresh(s) == /\ sc' = s /\ pc' = "tmp" /\ cur' = s.start /\ rows' = [f \in OutFiles(s.cb) |-> 0]
+                 /\ scan' = 0 /\ seen' = <<>> /\ lastAt' = <<>> /\ idx' = <<>> /\ fileMaxH' = <<>> /\ maxH' = NONE
+                 /\ open' = {} /\ blk' = NONE /\ delivered' = <<>> /\ tmp' = <<>> /\ fin' = <<>> /\ exit' = NONE /\ errH' = NONE
+
 Fail(h) == /\ pc' = "done" /\ exit' = 1 /\ errH' = h
 
 \* main.rs:206 -> Callback::new : *.csv.tmp created (truncated) before anything is read
@@ -149,15 +166,16 @@ ScanRecord == /\ pc = "scan" /\ scan < Len(sc.recs)
 
 Selected == IF "LastInsertWins" \in AsIs
             THEN [h \in DOMAIN lastAt |-> seen[lastAt[h]]]
-            ELSE IF BestTips(seen) = {} THEN <<>> ELSE ChainOf(seen, CHOOSE t \in BestTips(seen) : TRUE)
+            ELSE LET mk(tips) == IF tips = {} THEN <<>> ELSE ChainOf(seen, CHOOSE t \in tips : TRUE)
+                 IN Force(BestTips(seen), mk)
 
 \* index.rs ChainIndex::new : select chain, per-file maximum, clamp by --end, trim by --start/--end
 SelectChain == /\ pc = "scan" /\ scan = Len(sc.recs)
-               /\ LET chain == Selected IN
+               /\ \E chain \in {Selected} :      \* (bound, so that the selection is computed once)
                     IF DOMAIN chain = {} THEN /\ Fail(NONE)
                                               /\ UNCHANGED <<idx, fileMaxH, maxH>>
-                    ELSE LET known == MaxOf(DOMAIN chain)
-                             mh == IF sc.end # NONE /\ sc.end < known THEN sc.end ELSE known
+                    ELSE \E known \in {MaxOf(DOMAIN chain)} :
+                         LET mh == IF sc.end # NONE /\ sc.end < known THEN sc.end ELSE known
                              keep == IF sc.start = 0 /\ sc.end = NONE THEN DOMAIN chain
                                      ELSE {h \in DOMAIN chain : h >= sc.start - 1 /\ h <= mh}
                          IN /\ idx' = [h \in keep |-> chain[h]]
@@ -313,7 +331,7 @@ Heights == {delivered[i][1] : i \in DOMAIN delivered}
 ExpectedLast == IF sc.end # NONE /\ sc.end < sc.tip THEN sc.end ELSE sc.tip
 ExpectedHeights == sc.start .. ExpectedLast
 
-DeliverNext == [][pc = "deliver" /\ pc' # "deliver" /\ exit' = NONE =>
+DeliverNext == [][pc = "deliver" /\ pc' = "lookup" =>
                     /\ delivered' = Append(delivered, <<cur, blk>>)
                     /\ (Len(delivered) = 0 => cur = sc.start)
                     /\ (Len(delivered) > 0 => cur = delivered[Len(delivered)][1] + 1)]_vars
